@@ -47,6 +47,8 @@ type Sess struct {
 	// what CreateSession / the last ActivateSession returned (needed for the client signature)
 	ServerNonce []byte
 	ServerCert  []byte
+	// SessionID is the public id of the session (not a credential)
+	SessionID *ua.NodeID
 }
 
 type Episode struct {
@@ -184,6 +186,12 @@ func (e *Episode) Token(kind string) (*ua.NodeID, int) {
 	case "aliasstr":
 		// … and as a string identifier with the same digits
 		return ua.NewStringNodeID(0, fmt.Sprint(e.Valid.Tok.IntID())), 900003
+	case "sessionid":
+		// the PUBLIC SessionID of the valid session, presented as authentication token
+		return e.Valid.SessionID, 900004
+	case "closedsid":
+		// the public SessionID of the closed session
+		return e.Closed.SessionID, 900005
 	case "closed":
 		return e.Closed.Tok, e.Closed.Idx
 	case "notactivated":
@@ -392,7 +400,7 @@ func (e *Episode) NewSession(kind string, activate, closeIt bool) *Sess {
 		return &Sess{}
 	}
 	s := &Sess{Idx: e.TokIdx[cr.AuthenticationToken.String()], Tok: cr.AuthenticationToken}
-	s.ServerNonce, s.ServerCert = cr.ServerNonce, cr.ServerCertificate
+	s.ServerNonce, s.ServerCert, s.SessionID = cr.ServerNonce, cr.ServerCertificate, cr.SessionID
 	save := e.Valid
 	e.Valid = s
 	if activate {
